@@ -91,6 +91,11 @@ func fnDecr(ctx *cmdContext, args map[string]any) (output respValue, err error) 
 }
 
 func fnDecrBy(ctx *cmdContext, args map[string]any) (output respValue, err error) {
+	if args["decrement"].(int64) == math.MinInt64 {
+		// cannot be negated
+		output.data = respErrorString("ERR decrement would overflow")
+		return
+	}
 	return keyAdd(ctx, args["key"].(string), -args["decrement"].(int64))
 }
 
